@@ -38,6 +38,62 @@ theorem restore_select_spec (enc : Bool) (u : User) (sre fre : Nat → Bool) (s 
       intro b' hb' hsome
       exact hmax b' ((mem_readable h b').mp hb') ((find?_path_isSome_iff _ _).mp hsome)
 
+/-- **Nothing else is written.**  Without any assumption on timestamps: every file version a successful `restore` writes
+passes the file filter, is recorded in a readable snapshot matching the snapshot filter, has all the chunks it needs, and no
+path is written twice. -/
+theorem restore_nothing_else (enc : Bool) (u : User) (sre fre : Nat → Bool) (s : Store) (h : WF s) (sel : List FileRec)
+    (hr : restore enc u sre fre s = .ok sel) :
+    (sel.map (·.path)).Nodup ∧
+    ∀ f ∈ sel, fre f.path = true ∧ (∃ b, Readable enc u sre s b ∧ f ∈ b.files) ∧ ∀ c ∈ f.needs, chunkOk u s c = true := by
+  unfold restore at hr
+  rw [loadSnapshots_wf enc u sre s h] at hr
+  simp only at hr
+  split at hr
+  · rename_i hall
+    simp only [Except.ok.injEq] at hr
+    subst hr
+    refine ⟨selectFiles_nodup_paths _ _, ?_⟩
+    intro f hf
+    obtain ⟨hfre, hfs⟩ := (mem_selectFiles fre _ f).mp hf
+    obtain ⟨b, hb, hfind⟩ := exists_of_findSome?_eq_some hfs
+    refine ⟨hfre, ⟨b, (mem_readable h b).mp hb, mem_of_find?_eq_some hfind⟩, ?_⟩
+    intro c hc
+    rw [all_eq_true] at hall
+    have := hall f hf
+    rw [all_eq_true] at this
+    exact this c hc
+  · cases hr
+
+/-- **The snapshot filter selects exactly the matching names**: listing under a filter shows the rows of the unfiltered
+listing whose name the filter accepts (same multiset; both are ordered newest first by `list_rows_spec`). -/
+theorem list_filter_commutes (enc : Bool) (u : User) (sre : Nat → Bool) (s : Store) (h : WF s) :
+    ∃ rows all, listSnapshots enc u sre s = .ok rows ∧ listSnapshots enc u (fun _ => true) s = .ok all ∧
+      rows.Perm (all.filter (fun r => sre r.sid)) := by
+  have hfilter : loadedPure enc u sre s = (loadedPure enc u (fun _ => true) s).filter (fun l => sre l.sid) := by
+    unfold loadedPure
+    rw [filter_filterMap]
+    apply filterMap_congr'
+    rintro ⟨n, o⟩ _
+    cases n with
+    | snap f sid =>
+      cases o with
+      | snap f' sid' b =>
+        simp only [Bool.true_and]
+        by_cases hv : visible enc u f = true
+        · by_cases hs : sre sid = true
+          · simp [hv, hs, toLoaded, Option.filter]
+          · simp [hv, hs, toLoaded, Option.filter]
+        · simp [hv]
+      | _ => simp
+    | _ => simp
+  unfold listSnapshots
+  rw [loadSnapshots_wf enc u sre s h, loadSnapshots_wf enc u _ s h]
+  refine ⟨_, _, rfl, rfl, ?_⟩
+  refine (mergeSort_perm _ _).trans ?_
+  refine Perm.trans ?_ ((mergeSort_perm _ rowGE).filter _).symm
+  rw [hfilter, filter_map]
+  exact Perm.refl _
+
 /-- **`list-snapshots` shows exactly the snapshots the caller can see, newest first.**  One row per listed snapshot object
 that matches the filter and carries the caller's family tag; timestamp and file count are the recorded ones when the private
 part decrypts with the caller's key, empty otherwise; rows are ordered by timestamp descending (rows without details last). -/
